@@ -633,7 +633,7 @@ func (c *ctx) rewriteGo(g *ast.GoStmt) ast.Stmt {
 // pure reports whether re-evaluating e has no side effects that matter:
 // identifiers, selectors, index expressions, composite literals, the
 // receive operator's operand, and calls of the known accessor methods
-// Done() / Chan().
+// Done() / Chan() / Context(), and time.Now().
 func pure(e ast.Expr) bool {
 	switch v := e.(type) {
 	case nil:
@@ -663,8 +663,13 @@ func pure(e ast.Expr) bool {
 		return true
 	case *ast.CallExpr:
 		if se, ok := v.Fun.(*ast.SelectorExpr); ok && len(v.Args) == 0 {
-			if se.Sel.Name == "Done" || se.Sel.Name == "Chan" {
+			if se.Sel.Name == "Done" || se.Sel.Name == "Chan" || se.Sel.Name == "Context" {
+				// Context(): the accessor of *http.Request and of gRPC streams
 				return pure(se.X)
+			}
+			if id, ok := se.X.(*ast.Ident); ok && id.Name == "time" && se.Sel.Name == "Now" {
+				// reads the (fake) clock, which does not move while a task polls
+				return true
 			}
 		}
 		return false
